@@ -76,18 +76,19 @@ def orient_template(meta_molecule, current_node, template, built_nodes):
     ref_coords = np.zeros((3, len(edges)))
     opt_coords = np.zeros((3, len(edges)))
 
+    # residues are identified by their node and their atoms and not by
+    # the resid, because several residues can have the same resid
+    current_atoms = meta_molecule.nodes[current_node]["graph"].nodes
     for ndx, edge in enumerate(edges):
         for atom in edge:
-            resid = meta_molecule.molecule.nodes[atom]["resid"]
-            if resid == current_resid:
+            if atom in current_atoms:
                 current_atom = atom
             else:
                 ref_atom = atom
-                ref_resid = resid
 
         # the reference residue has already been build so we take the lower
         # resolution coordinates as reference
-        if ref_resid in built_nodes:
+        if ref_nodes[ndx] in built_nodes:
             atom_name = meta_molecule.molecule.nodes[current_atom]["atomname"]
 
             # record the coordinates of the atom that is rotated
@@ -183,7 +184,7 @@ class Backmap(Processor):
                     vector = template[atomname]
                     new_coords = cg_coord + vector * self.fudge_coords
                     meta_molecule.molecule.nodes[atom_high]["position"] = new_coords
-                built_nodes.append(resid)
+                built_nodes.append(node)
 
     def run_molecule(self, meta_molecule):
         """
